@@ -339,6 +339,21 @@ func c19AsID(c *Case) {
 		tc{float32(0), false, 0}, tc{float32(1), true, 1}, tc{float32(-1), false, 0},
 		tc{"1", false, 0}, tc{nil, false, 0}, tc{true, false, 0}, tc{[]byte{1}, false, 0}, tc{wamp.List{1}, false, 0},
 	)
+	// unsigned values with bit 63 set whose low bits form a valid id, and random 64-bit patterns of every integer type
+	for _, low := range []uint64{0, 1, 2, 42, 4711, 1 << 20, uint64(max) - 1, uint64(max), uint64(max) + 1} {
+		cases = append(cases, tc{uint64(1)<<63 | low, false, 0}, tc{uint(1)<<63 | uint(low), false, 0})
+	}
+	for i := 0; i < 400; i++ {
+		u := c.Rng.Uint64()
+		if i%2 == 0 {
+			u >>= uint(c.Rng.IntN(64))
+		}
+		ok := u >= 1 && u <= uint64(max)
+		cases = append(cases, tc{u, ok, u}, tc{uint(u), ok, u})
+		n := int64(u)
+		okS := n >= 1 && n <= max
+		cases = append(cases, tc{n, okS, uint64(n)})
+	}
 	in, out := 0, 0
 	for _, t := range cases {
 		c.Hit("ID3")
